@@ -335,7 +335,7 @@ def target_cfgs(draw, allow_micro800=True):
     return {
         "identity": ident_,
         "session_handle": draw(st.one_of(st.integers(1, 0xFFFFFFFF), st.sampled_from([1, 0xFFFFFFFF, 0x80000000, 0x100]))),
-        "conn_ids": [draw(st.one_of(st.integers(1, 0xFFFFFFFF), st.sampled_from([1, 0xFFFFFFFF, 0x01000000])))],
+        "conn_ids": [draw(st.one_of(st.integers(1, 0xFFFFFFFF), st.sampled_from([1, 0xFFFFFFFF, 0x01000000, 0, 0])))],   # any 32-bit id, 0 included
         "fo_policy": fo,
         "fo_refuse": draw(st.sampled_from([[0x01, [0x0109]], [0x08, []], [0x01, [0x0100]], [0x05, []]])),
         "page_size": draw(st.one_of(st.integers(1, 600), st.sampled_from([1, 40, 100, 480]))),
@@ -343,6 +343,8 @@ def target_cfgs(draw, allow_micro800=True):
         "read_cap": cap,
         "bool_true": draw(st.sampled_from([0x01, 0xFF])),
         "frag_round": draw(st.sampled_from(["element", "byte", "any"])),
+        "multi_room": draw(st.one_of(st.none(), st.none(), st.none(), st.integers(60, conn), st.integers(conn - 40, conn))),
+        "multi_partial_status": draw(st.sampled_from([0x1E, 0x06])),
         "empty_first_fragment": draw(st.integers(0, 7)) == 0,
         "plc_name": draw(st.sampled_from(["MainController", "P", "", "Line_3_PLC"])),
         "expected_route": b"" if micro else b"\x01\x00",
